@@ -31,6 +31,7 @@ Inv_C04_NoHiddenOrSkipped    == Final => NoHiddenOrSkippedText(doc, st.elems)
 Inv_C07_TagsBalanced         == Final => TagsBalanced(st.elems)
 Inv_C07_ChainsMirrorSource   == Final => ChainsMirrorSource(doc, st.elems)
 Inv_C03_SimpleParaWhole      == Final => SimpleParaWhole(doc, st.elems)
+Inv_C08_MediaAllEmitted      == Final => MediaAllEmitted(doc, st.elems)
 Inv_StepEqualsRun            == Final => st.elems = Run(doc, SkipFlag).elems
 Inv_C20_SkipEqualsDelete     == (CheckC20 /\ ~walking /\ Len(doc) >= 1 /\ ~WrapperBecomesEmpty(doc)) => SkipEqualsDelete(doc)
 \* the theorem as the property states it, without the exclusion: violated (see Convert!WrapperBecomesEmpty)
